@@ -1,4 +1,4 @@
-"""PROTOTYPE C09: one multi-codemod run == chain of single-codemod runs (tree and per-codemod results)."""
+"""C09: one multi-codemod run == chain of single-codemod runs (tree and per-codemod results)."""
 import base64, collections, copy, hashlib, json, os, random, sys
 from vf import corpus
 from vf.runner import run_check, Violation
@@ -16,11 +16,26 @@ def plan(tier, seed):
     seqs = list(INTERACT)
     for _ in range(6 if tier == "quick" else 80):
         seqs.append(rnd.sample(cids, rnd.randint(3, 6)))
+    # interaction list: (codemod that adds an import / moves lines) x (semgrep-detected codemod) on the same file
+    movers = ["pixee:python/use-defusedxml", "pixee:python/harden-pickle-load", "pixee:python/secure-random", "pixee:python/timezone-aware-datetime", "pixee:python/sandbox-process-creation", "pixee:python/url-sandbox"]
+    detected = sorted(c for c in cids if corpus.is_semgrep_detected(c))
+    pairs = [[a, b] for a in movers for b in detected if a != b and a in by and b in by]
+    rnd.shuffle(pairs)
+    seqs += pairs[: (6 if tier == "quick" else 60)]
     for q, ks in enumerate(seqs):
         files = {}
         for k in ks:
             for n, r in enumerate(rnd.sample(by[k], min(2, len(by[k])))):
                 files[f"{k.split('/')[1].replace('-', '_')}_{n}.py"] = b64(r["input"].encode())
+        # one file with a site of every codemod of the sequence, in order: an earlier codemod's edit (added import, added line) moves the later codemods' findings
+        from vf import gen as _gen
+        heads, bodies = [], []
+        for k in ks:
+            h_, b_ = _gen.split_head(by[k][0]["input"]); heads.append(h_); bodies.append(b_ if b_.endswith("\n") else b_ + "\n")
+        shared = "".join(dict.fromkeys(heads)) + "\n".join(bodies)
+        try:
+            compile(shared, "<shared>", "exec"); files["shared_sites.py"] = b64(shared.encode())
+        except SyntaxError: pass
         # every codemod also sees the other codemods' files -> cross triggers
         files["requirements.txt"] = b64(b"requests\n")
         files["crafted_literal_get.py"] = b64(b"import requests\nrequests.get('https://example.com')\n")
@@ -28,6 +43,15 @@ def plan(tier, seed):
         base = ["{proj}", "--output", "{out}"]
         jobs.append({"id": f"seq{q}|batch", "pair": q, "kind": "batch", "ks": ks, "files": files, "argv": base + ["--codemod-include", ",".join(ks)], "monitors": {"snap": False, "pipe": False}})
         jobs.append({"id": f"seq{q}|chain", "pair": q, "kind": "chain", "ks": ks, "files": files, "argv": [], "steps": [base + ["--codemod-include", k] for k in ks], "monitors": {"snap": False, "pipe": False}})
+    from vf.checks import c03
+    extra = [(["pixee:python/use-defusedxml", "pixee:python/fix-mutable-params", "pixee:python/use-set-literal"], {"setup.py": b64(c03.SETUP_PY_WITH_TRIGGERS), "app.py": b64(b"import xml.sax\nxml.sax.parse('f')\n")}),
+             (["pixee:python/fix-mutable-params", "pixee:python/use-defusedxml"], {"setup.py": b64(c03.SETUP_PY_WITH_TRIGGERS), "app.py": b64(b"import xml.sax\nxml.sax.parse('f')\n")}),
+             (["pixee:python/url-sandbox", "pixee:python/sandbox-process-creation"], {"requirements.txt": b64(b"requests\n"), "app.py": b64(b"import requests\nimport subprocess\nfrom flask import request\ndef v():\n    requests.get(request.args['u'])\n    subprocess.run(request.args['c'])\n")}),
+             (["pixee:python/sandbox-process-creation", "pixee:python/url-sandbox"], {"pyproject.toml": b64(b'[project]\nname = "x"\ndependencies = [\n    "requests",\n]\n'), "app.py": b64(b"import requests\nimport subprocess\nfrom flask import request\ndef v():\n    requests.get(request.args['u'])\n    subprocess.run(request.args['c'])\n")})]
+    base = ["{proj}", "--output", "{out}"]
+    for q, (ks, files) in enumerate(extra):
+        jobs.append({"id": f"xseq{q}|batch", "pair": f"x{q}", "kind": "batch", "ks": ks, "files": files, "argv": base + ["--codemod-include", ",".join(ks)], "monitors": {"snap": False, "pipe": False}})
+        jobs.append({"id": f"xseq{q}|chain", "pair": f"x{q}", "kind": "chain", "ks": ks, "files": files, "argv": [], "steps": [base + ["--codemod-include", k] for k in ks], "monitors": {"snap": False, "pipe": False}})
     return jobs
 
 _pairs = {}
@@ -61,7 +85,12 @@ def judge(job, res):
             files_c = {cs["path"] for cs in pc.get(cons, {}).get("changeset", [])} ^ {cs["path"] for cs in pb.get(cons, {}).get("changeset", [])}
             prod = [k for k in job["ks"][: job["ks"].index(cons)] if any(cs["path"] in files_c for cs in pb[k]["changeset"])] if cons in job["ks"] else []
             from vf import corpus as C
-            key = f"stale-prefilter/{prod[0].split('/')[1] if prod else '?'}>{cons.split('/')[1]}" if C.is_semgrep_detected(cons) else f"batch-chain-differs/{cons.split('/')[1]}"
+            if not diffr:
+                # every per-codemod result agrees and only the final tree differs: some write was lost or replayed behind the report's back
+                writers = [k.split("/")[1] for k in job["ks"] if any(cs["path"] in difft for cs in pb.get(k, {}).get("changeset", []))]
+                key = "tree-differs-results-agree/" + (os.path.basename(difft[0]) if difft and os.path.basename(difft[0]) in ("setup.py", "requirements.txt", "pyproject.toml", "setup.cfg") else "source-file") + "/" + ">".join(writers[:3])
+            elif C.is_semgrep_detected(cons): key = f"stale-prefilter/{prod[0].split('/')[1] if prod else '?'}>{cons.split('/')[1]}"
+            else: key = f"batch-chain-differs/{cons.split('/')[1]}"
             v.append(Violation("C09", key, f"tree diff {difft[:4]}, result diff for {diffr[:4]}", dict(w, tree_diff=difft, result_diff=diffr, batch=pb.get(cons), chain=pc.get(cons))))
     return v, st, nt
 
